@@ -624,6 +624,25 @@ func init() {
 	})
 	reg("internal/stringslite.Clone", func(m *Machine, _ *frame, _ token.Pos, _ *ssa.Function, a []Value) Value { return a[0] })
 	reg("strings.Clone", func(m *Machine, _ *frame, _ token.Pos, _ *ssa.Function, a []Value) Value { return a[0] })
+	// strings.ToValidUTF8 (its body builds the result with strings.Builder, i.e. unsafe pointers): on
+	// concrete arguments the real function; on a symbolic string only where it is the identity
+	reg("strings.ToValidUTF8", func(m *Machine, _ *frame, _ token.Pos, _ *ssa.Function, a []Value) Value {
+		s := a[0].(*Seq)
+		if g, ok := s.GoString(); ok {
+			return m.strVal(strings.ToValidUTF8(g, m.mustStr(a[1])))
+		}
+		if s.Max >= 0 && s.Max <= 64 {
+			c := m.C
+			ascii := c.True()
+			for i := 0; i < s.Max; i++ {
+				ascii = c.And(ascii, c.Cmp(smt.OULT, s.At(c.BV(uint64(i), 64)), c.BV(0x80, 8)))
+			}
+			if m.S.Check(c.Not(ascii)) == smt.Unsat {
+				return s // all bytes ASCII on this path: already valid
+			}
+		}
+		panic(m.unsupported("strings.ToValidUTF8 on a symbolic string that may hold non-ASCII bytes"))
+	})
 	reg("strings.ToLower", func(m *Machine, _ *frame, _ token.Pos, _ *ssa.Function, a []Value) Value {
 		s := a[0].(*Seq)
 		if g, ok := s.GoString(); ok {
